@@ -46,6 +46,41 @@ def union_cases(seed, n):
                 data = [node(2) for _ in range(3)]
                 out.append((s, data, {"dtn": False, "strict": False}))
                 continue
+            if i % 15 == 11:
+                # the float -> double deferral under every spelling of the two branches (bare name, {"type": ...},
+                # {"type": ..., other attributes}), any position, any nesting
+                def spell(t):
+                    c = r.random()
+                    if c < 0.4:
+                        return t
+                    if c < 0.7:
+                        return {"type": t}
+                    return {"type": t, r.choice(["doc", "custom", "comment"]): "x"}
+                others = r.sample(["null", "string", "boolean", "bytes", {"type": "array", "items": "int"},
+                                   {"type": "enum", "name": "En", "symbols": ["A"]}], r.randint(0, 3))
+                br = [spell("float")] + ([spell("double")] if r.random() < 0.8 else []) + others
+                if r.random() < 0.3:
+                    br.insert(0, spell(r.choice(["int", "long"])))
+                first_float = next(j for j, b in enumerate(br) if b == "float" or (isinstance(b, dict) and b.get("type") == "float"))
+                rest = br[:first_float] + br[first_float:]
+                # float stays before double in half of the cases
+                if r.random() < 0.5:
+                    r.shuffle(br)
+                u = br
+                wrap = r.random()
+                if wrap < 0.4:
+                    s = u
+                    mk = lambda x: x
+                elif wrap < 0.7:
+                    s = {"type": "record", "name": "Wf", "fields": [{"name": "a", "type": "int"}, {"name": "u", "type": u}]}
+                    mk = lambda x: {"a": 1, "u": x}
+                else:
+                    s = {"type": "array", "items": u}
+                    mk = lambda x: [x, x]
+                pool = [0.1, 1e200, -2.5, 1.0, 3.4028234663852886e+38, 1e-50, float("inf"), 16777217.0, 5, 2 ** 40, 0.5]
+                data = [mk(r.choice(pool)) for _ in range(4)]
+                out.append((s, data, {"dtn": False, "strict": False}))
+                continue
             if k < 0.35:
                 s, data = gen.ambiguous_union_case(g)
             elif k < 0.7:
